@@ -241,5 +241,59 @@ func runC16(r *Run) {
 			}
 		}
 	}
+	// an optional hidden inside a MAP's value type: maps that disagree about it meet in a list, or at compile / run time
+	{
+		uni := func(p *int) map[string]item { return map[string]item{"a": {"a", p}} }
+		for _, c := range []struct {
+			hv  interface{}
+			src string
+		}{
+			{map[string]interface{}{"ms": []map[string]item{uni(sc(7)), uni(nil)}}, `ms[1]["a"].score + 1`},
+			{map[string]interface{}{"ms": []map[string]item{uni(nil), uni(sc(7))}}, `ms[0]["a"].score * 2`},
+			{map[string]interface{}{"mm": map[string]map[string]item{"x": uni(sc(1)), "y": uni(nil)}}, `mm["y"]["a"].score + 1`},
+		} {
+			for rep := 0; rep < 10; rep++ {
+				var got string
+				protect(func() {
+					v, err := yae.Eval(c.src, c.hv)
+					if err != nil {
+						got = "error"
+					} else {
+						got = "value " + v.String()
+					}
+				})
+				r.Count("host-mixed-nil programs")
+				if strings.HasPrefix(got, "value") {
+					r.Violate("absent-optional-consumed-without-get", fmt.Sprintf("%q over maps of structs that disagree about an absent score", c.src), "an absent score took part in a computation: "+got)
+					break
+				}
+			}
+		}
+		// compiled against a value with the score set, run on a value of the same Go type with the score absent
+		type shelf struct {
+			Stock map[string]item `yae:"stock"`
+		}
+		full2, hole := shelf{uni(sc(7))}, shelf{uni(nil)}
+		for _, src := range []string{`stock["a"].score + 1`, `stock["a"].score == 0`} {
+			var got string
+			protect(func() {
+				cl, err := yae.NewExpr().Compile(src, full2)
+				if err != nil {
+					got = "compile-error"
+					return
+				}
+				v, err := cl(hole)
+				if err != nil {
+					got = "error"
+				} else {
+					got = "value " + v.String()
+				}
+			})
+			r.Count("host-mixed-nil programs")
+			if strings.HasPrefix(got, "value") {
+				r.Violate("absent-optional-consumed-without-get", fmt.Sprintf("%q compiled against a shelf with the score set, run on one with the score absent", src), got)
+			}
+		}
+	}
 	_ = types.Num
 }
